@@ -260,9 +260,9 @@ Inv_NoExtra == \A x \in specs : x.svc \in Services(api) /\ x.rpc \in RpcIds(api)
                /\ (x.kind = "sync" => x.transport = (IF "grpc" \in api.ts THEN "grpc" ELSE "rest"))
 
 Parsed == stage \in {"index", "embed", "run", "done"}
-\* FULL and SHORT are the lines between the tags
+\* FULL is the lines between the tags; SHORT ("may not include imports") is a non-empty range inside FULL
 Inv_Full == Parsed => /\ segs.FULL = [s |-> StartLine(lines) + 1, e |-> EndLine(lines) - 1]
-                      /\ segs.SHORT = segs.FULL
+                      /\ segs.FULL.s <= segs.SHORT.s /\ segs.SHORT.s <= segs.SHORT.e /\ segs.SHORT.e <= segs.FULL.e
 \* every typed segment has start <= end, lies inside FULL and starts on its marker line; it is absent iff
 \* the file has no such section
 SegOk(S, ls, j) == LET g == SegOf(S, j) IN
